@@ -95,14 +95,15 @@ type Task struct {
 	name     string
 	body     func(t *Task)
 	resume   chan struct{}
-	slot     int  // transport identity (unique in the process)
-	spin     bool // parked by the spin protocol (dyn.go)
-	blocked  bool // its last park was a forced one: it waits for somebody else
-	dyn      bool // goroutine started by the code under test (dyn.go)
-	daemon   bool // ... that is older than the current run (started by a package initialiser, or still waiting for somebody when its run ended)
-	initBorn bool // ... by a package initialiser: never unwound
-	victim   bool // being unwound
-	runaway  bool // did not come to rest
+	slot     int        // transport identity (unique in the process)
+	spin     bool       // parked by the spin protocol (dyn.go)
+	blocked  bool       // its last park was a forced one: it waits for somebody else
+	held     []heldLock // mutexes of the code under test it holds (xsimrt.LockHook)
+	dyn      bool       // goroutine started by the code under test (dyn.go)
+	daemon   bool       // ... that is older than the current run (started by a package initialiser, or still waiting for somebody when its run ended)
+	initBorn bool       // ... by a package initialiser: never unwound
+	victim   bool       // being unwound
+	runaway  bool       // did not come to rest
 	done     bool
 	prio     int
 
@@ -209,8 +210,11 @@ func (s *Sim) hook(site int) {
 	s.segs[len(s.segs)-1].N++
 	s.evHash = (s.evHash ^ uint64(t.id+1)<<20 ^ uint64(site)) * fnvPrime
 	t.lastSite = site
+	// A task is never unwound at a yield inside a critical section (len(t.held)
+	// > 0): the lock, and what it protects, may live in package-level variables
+	// and outlive the run. It is unwound at its first yield outside.
 	if s.stop {
-		if t.inUnit {
+		if t.inUnit && len(t.held) == 0 {
 			t.inUnit = false
 			panic(abortUnit{s.stopWhy})
 		}
@@ -218,7 +222,7 @@ func (s *Sim) hook(site int) {
 	}
 	if s.steps > s.maxSteps {
 		s.stop, s.stopWhy = true, "budget"
-		if t.inUnit {
+		if t.inUnit && len(t.held) == 0 {
 			t.inUnit = false
 			panic(abortUnit{"budget"})
 		}
@@ -226,7 +230,7 @@ func (s *Sim) hook(site int) {
 	}
 	if t.inUnit {
 		t.unitSteps++
-		if t.unitCap > 0 && t.unitSteps > t.unitCap {
+		if t.unitCap > 0 && t.unitSteps > t.unitCap && len(t.held) == 0 {
 			t.inUnit = false
 			panic(abortUnit{"stepcap"})
 		}
@@ -565,6 +569,7 @@ func (s *Sim) run() {
 			t.body(t)
 			t.done = true
 			t.inUnit = false
+			releaseHeld(&t.held)
 			// a segment that ends because the task finished is recorded one
 			// yield longer than executed, so that replay never parks the task
 			// inside its last yield (which would delay the code after it).
@@ -724,7 +729,7 @@ func withStepCap(cap int64, f func()) (n int64, capped bool) {
 		if prev != nil {
 			prev(site)
 		}
-		if n > cap {
+		if n > cap && locksHeld() == 0 {
 			// sticky: once the budget is gone every further yield unwinds its
 			// caller, so a sequence of calls ends quickly
 			capped = true
@@ -734,6 +739,9 @@ func withStepCap(cap int64, f func()) (n int64, capped bool) {
 	defer func() {
 		setHook(prev)
 		if prev == nil {
+			if curSim == nil && amb.cur == nil {
+				releaseHeld(&mainHeld) // (the call was unwound while it was blocked)
+			}
 			ambBetweenCalls()
 		}
 	}()
